@@ -79,6 +79,7 @@ type fnEnc struct {
 	implFns   map[string]*types.Interface
 	embIDs    map[string]int
 	invUse    map[string]bool
+	acquired  map[string]*state
 
 	deferred map[*ssa.BasicBlock][]*ssa.Defer // not path sensitive: in order of appearance
 	curBlock *ssa.BasicBlock
